@@ -56,7 +56,8 @@ func init() {
 	register(&Rule{
 		Name:  "COMMIT-POINT",
 		IR:    "ssa",
-		Props: []string{"C13"},
+		Props: []string{"C13", "C12"}, // a rejected edit that has already changed the world also breaks the per-feature map semantics of C12
+		FloorBy: map[string]int{"C12": 6},
 		// AddFeature, AddTag, RemoveTag of ingest.BasicMutableWorld and ingest.MutableOverlayWorld
 		Floor: 6,
 		Doc: "in every AddFeature/AddTag/RemoveTag implementation of an ingest.MutableWorld, no statement with a write effect on the receiver's own state (store, map update/delete, or a call whose " +
